@@ -190,7 +190,7 @@ def scanVenv (lower : String → String) (isEditable : Chars → Bool) (pfx : Pa
 /-- `scan_workspace_with_excludes` in full: workspace files, venv plugins, import fixpoint,
     re-analysis of modules newly marked as plugins; vectors arranged by `rank` at the end. -/
 def scanFull (lower : String → String) (isEditable : Chars → Bool) (root pfx : Path)
-    (excluded : Path → Bool) (rank : Path → Nat) (st : Index) : Index :=
+    (excluded : Path → Bool) (seqD seqU : String → List Path) (st : Index) : Index :=
   let st := { st with workspaceRoot := some root }
   let st := scanPhase2At root pfx excluded st
   let st := scanVenv lower isEditable pfx root st
@@ -200,7 +200,7 @@ def scanFull (lower : String → String) (isEditable : Chars → Bool) (root pfx
     match st.content m with
     | some v => (analyze pfx true st m v).1
     | none => st) st
-  arrange rank st
+  arrange seqD seqU st
 
 end Index
 end PLS
